@@ -1,17 +1,22 @@
 #!/bin/bash
 # Re-runs every kept seed (seeded/<id>/) against the property's current check.  Works on a scratch worktree of /repo
 # (VERIF_REPO) so that /repo itself stays untouched: apply, run the quick check, revert.  One line per seed; a seed is
-# "caught" when the check exits 1.   usage: tools/seedall.sh [tier] [seed-name-pattern]
+# "caught" when the check exits 1.   usage: tools/seedall.sh [tier] [seed-name-pattern ...]
+TIER=${1:-quick}
 cd "$(dirname "$0")/.." && V=$(pwd)      # /verif, or a snapshot of it (vp run)
 WT=${SEEDALL_WT:-/tmp/seedall-repo}
 git -C /repo worktree remove --force $WT 2>/dev/null
 git -C /repo worktree add -q $WT HEAD || exit 9
-for d in seeded/*${2:-}*/; do
+shift   # further arguments: seed-name patterns (default: all)
+[ $# -gt 0 ] || set -- ""
+for pat in "$@"; do
+for d in seeded/*${pat}*/; do
   n=$(basename $d); p=$(python3 -c "import json;print(json.load(open('$d/meta.json'))['breaks_property'])")
   git -C $WT apply -C1 --whitespace=nowarn $V/$d/patch.diff 2>/dev/null || { echo "$n $p PATCH-DOES-NOT-APPLY"; git -C $WT checkout -- .; continue; }
-  VERIF_REPO=$WT ./check $p --tier ${1:-quick} --no-evidence > $WT.$n.log 2>&1; rc=$?
+  VERIF_REPO=$WT ./check $p --tier $TIER --no-evidence > $WT.$n.log 2>&1; rc=$?
   git -C $WT checkout -- .
   echo "$n $p check_exit=$rc $( [ $rc = 1 ] && echo caught || echo MISSED )"
+done
 done
 git -C /repo worktree remove --force $WT
 rm -f $WT.*.log
